@@ -237,6 +237,38 @@ def check_nested(case):
                         _check_seq_result(out, members, [models[i] for i in order], days, method, 'df_sync(%s of %s, %s, %s)' % (name, desc, how, method), sig)
                 except Exception as e:
                     out.viol('raised', 'df_sync(%s of %s, %s, %s) raised %s: %s' % (name, desc, how, method, type(e).__name__, e), exc=type(e).__name__, **sig)
+            # the method spelt as a LIST (the documented 'str or list of str'), one list object serving the whole call and the next call
+            if method is not None:
+                mlist = [method]
+                for rep in (1, 2):
+                    for name, obj, order, probe in [sh for sh in shapes() if sh[0][0] == '{' or sh[0].startswith('[{')]:
+                        out.sub()
+                        sig = dict(shape=name, how=how, method='[%s]' % method, call=rep)
+                        try:
+                            res = df_sync(obj, how, mlist)
+                            out.call()
+                            ok, members = probe(res)
+                            if not ok:
+                                out.viol('container-changed', 'df_sync(%s of %s, %s, [%s]): structure / non-timeseries members not preserved: %r' % (name, desc, how, method, res), **sig)
+                            else:
+                                _check_seq_result(out, members, [models[i] for i in order], days, method, 'df_sync(%s of %s, %s, method=[%r]) (call %d with this list object)' % (
+                                    name, desc, how, method, rep), sig)
+                        except Exception as e:
+                            out.viol('raised', 'df_sync(%s of %s, %s, [%s]) raised %s: %s' % (name, desc, how, method, type(e).__name__, e), exc=type(e).__name__, **sig)
+                        if mlist != [method]:
+                            out.viol('operand-mutated', 'df_sync(%s of %s, %s, method=m) with m = [%r]: the list is now %r' % (name, desc, how, method, mlist), **sig)
+                            mlist = [method]
+                fl = presync(lambda a, b: (a, b), index=dict(ij='inner', oj='outer', lj='left', rj='right')[how], method=[method])
+                sl = [tm.build_series(m) for m in models]
+                for rep in (1, 2):
+                    out.sub()
+                    sig = dict(shape='presync-kw-listmethod', how=how, method='[%s]' % method, call=rep)
+                    try:
+                        a, b = fl(a=[sl[0], sl[1]], b={'z': sl[2], 'w': 1.5})
+                        out.call()
+                        _check_seq_result(out, [a[0], a[1], b['z']], models, days, method, 'presync(method=[%r]) object, call %d, keyword arguments (%s, %s)' % (method, rep, desc, how), sig)
+                    except Exception as e:
+                        out.viol('raised', 'presync(method=[%r]) call %d (%s, %s) raised %s: %s' % (method, rep, desc, how, type(e).__name__, e), exc=type(e).__name__, **sig)
             # presync with nested arguments, positional and by keyword
             f = presync(lambda a, b: (a, b), index=dict(ij='inner', oj='outer', lj='left', rj='right')[how], method=method)
             s = [tm.build_series(m) for m in models]
